@@ -21,10 +21,11 @@ TraceCall == /\ E.ev = "call"
              /\ cid' = E.id /\ UNCHANGED bad
 FwdReason == IF pc # "loop" THEN "the model was called outside the batching loop (e.g. after a rejected argument)"
              ELSE IF start >= n THEN "more forward calls than batches"
-             ELSE IF E.training THEN "model ran in training mode"
+             ELSE IF E.training THEN "the model (or one of its sub-modules) ran in training mode"
              ELSE IF E.grad THEN "model ran with autograd enabled"
              ELSE IF E.rows # Rows(Window(start, b, n)) THEN "batch is not the next consecutive window of at most batch_size examples"
              ELSE IF \E k \in DOMAIN E.args : E.args[k] # E.rows THEN "an extra argument was sliced with a different window than X"
+             ELSE IF ~E.argdtype_ok THEN "an extra argument reached the model with another dtype than the caller's (model(X[i], args[i]) is not what ran)"
              ELSE ""
 TraceForward == /\ E.ev = "forward" /\ FwdReason = ""
                 /\ mode' = mode /\ grad' = grad
